@@ -39,6 +39,9 @@ def c02() -> int:
     # double claim is not masked by the models' own 0 / total guards
     fsx(c, RES + ({"variant": "core", "slots": 2, "low_energy": False, "name": "W-res/two-slots"},), ("hivemc.bundles", "c02", {}), K=3, H=5 if quick else 7,
         needs=["c02:two_holders"])
+    # two bases on one cell (one without plugs, one with): a vehicle parked at one is told to charge / park at the other
+    fsx(c, RES + ({"variant": "core", "twin_base": True, "pairs": False, "name": "W-res/twin-base"},), ("hivemc.bundles", "c02", {}), K=2 if quick else 3, H=6 if quick else 8,
+        needs=["instr:ReserveBase:ChargeBase:ChargingBase"])
     auto_worlds(c, "c02", quick, grid=True)
     if not quick:
         fsx(c, RES + ({"variant": "core", "slots": 2, "low_energy": False, "name": "W-res/two-slots/menu-probe"},), ("hivemc.bundles", "c02_probe", {}), K=2, H=7, needs=["c02:menu_probe"])
